@@ -478,6 +478,31 @@ _G = "@memento_function\ndef g(x):\n    return x + %d"
 RAW_DECLG_STATES = [_G % 1, _G % 2, _G % 1, _G % 3]
 
 
+RAW_FOREIGN_MOD = """from twosigma.memento import memento_function
+import json
+
+
+def local_encode(o):
+    return repr(o)
+
+
+%s
+
+
+@memento_function
+def m1(x):
+    return [dumps(x), encode(x), enc3(x)]
+
+
+@memento_function
+def m2(x):
+    return m1(x) + [dumps(x)]
+"""
+_F0 = "dumps = json.dumps\nencode = json.dumps\nenc3 = json.dumps"
+RAW_FOREIGN_STATES = [_F0, "encode = local_encode", "encode = json.dumps", "dumps = local_encode", "dumps = json.dumps", "enc3 = local_encode",
+                      "enc3 = json.dumps", "dumps = json.loads", "encode = 5", "encode = json.dumps", "dumps = json.dumps"]
+
+
 def rebinding_kinds_scenario(root, template=None, all_states=None, what="rebind-variable-to"):
     """a tracked module variable is re-bound to an int, to a plain function, that function is re-defined, the name is bound to a
     lambda and back to an int: after every step the in-process versions are those of a fresh process on the resulting module.
@@ -745,7 +770,9 @@ def main(chk, replay=None):
         root = tempfile.mkdtemp(prefix="c13r_")
         try:
             fails = (rebinding_kinds_scenario(root, RAW_DECLG_MOD, RAW_DECLG_STATES, "redefine-declared-dependency")
-                     if replay.get("raw_kinds") == "declared" else rebinding_kinds_scenario(root))
+                     if replay.get("raw_kinds") == "declared" else
+                     rebinding_kinds_scenario(root, RAW_FOREIGN_MOD, RAW_FOREIGN_STATES, "rebind-name-of-foreign-function")
+                     if replay.get("raw_kinds") == "foreign" else rebinding_kinds_scenario(root))
             print(json.dumps(dict(still_fails=bool(fails), observed=fails[:2]), default=str))
             return 1 if fails else 0
         finally:
@@ -850,6 +877,15 @@ def main(chk, replay=None):
         chk.violation({"what": "after defining the declared dependency g again (%s) the in-process versions are %s but a fresh process computes %s" % (
             f["event"][1], f["in_process"], f["fresh"]), "class": {"clause": f["clause"], "event": "redefine-declared-dependency", "object": "function"},
             "raw_kinds": "declared", "observed": gfails[:2]})
+    ffails = rebinding_kinds_scenario(chk.tmpdir(), RAW_FOREIGN_MOD, RAW_FOREIGN_STATES, "rebind-name-of-foreign-function")
+    chk.case(["three-names-of-one-foreign-function-rebound-in-turn"], nontrivial=True, sample=dict(fails=ffails[:1]))
+    chk.count("event:rebind-name-of-foreign-function", len(RAW_FOREIGN_STATES) - 1)
+    if ffails:
+        f = ffails[0]
+        chk.violation({"what": "three names of one module are bound to json.dumps; after `%s` the in-process versions are %s but a fresh process "
+                               "computes %s" % (f["event"][1], f["in_process"], f["fresh"]),
+                       "class": {"clause": f["clause"], "event": "rebind-name-of-foreign-function", "object": "function"},
+                       "raw_kinds": "foreign", "source": RAW_FOREIGN_MOD, "observed": ffails[:2]})
     dfails = declared_dependency_scenarios(chk.tmpdir())
     chk.case(["clones-of-functions-with-declared-dependencies"], nontrivial=True, sample=dict(fails=dfails[:1]))
     chk.count("event:create-clone-of-declared-dependency-function", 6)
